@@ -118,6 +118,19 @@ def templates(cfg):
 
         T(f"self_join.{how}", self_join)
 
+    # old references through alias(keep_col_refs=True) when the alias really becomes a SQL subquery and
+    # a hidden column shares its name with a visible one
+    def keep_refs_hidden_namesake(p, t):
+        d = t >> p.mutate(a=t.a + 1) >> p.arrange(t.b.nulls_last(), t.g.nulls_last(), t.a.nulls_last()) >> p.slice_head(2) >> p.alias("z", keep_col_refs=True)
+        return d >> p.filter(t.a > 0) >> p.mutate(w=t.a, v=p.C.a)
+
+    T("keep_refs.hidden_namesake_subquery", keep_refs_hidden_namesake, nmax=3)
+
+    def keep_refs_hidden_namesake_agg(p, t):
+        d = t >> p.mutate(b=t.b * 2) >> p.arrange(t.a.nulls_last(), t.g.nulls_last(), t.b.nulls_last()) >> p.slice_head(2) >> p.alias("z", keep_col_refs=True)
+        return d >> p.summarize(old=t.b.sum(), new=p.C.b.sum())
+
+    T("keep_refs.hidden_namesake_subquery_agg", keep_refs_hidden_namesake_agg, nmax=3)
     # the alias' own references to columns that are hidden on BOTH sides of the self-join
     for how in ("inner", "left"):
 
